@@ -436,3 +436,24 @@ M('C19', 'entry-key-renamed', CFGPY, "    'nbdiff-web': NbDiffWeb,", "    'nbdif
 M('C19', 'driver-parser-wrong-prog', DDR, "    parser = ConfigBackedParser('git-nbdiffdriver',", "    parser = ConfigBackedParser('git-nbdiff',", 'R19.5')
 T('C19', 'twin-redefine-port-in-tool', CFGPY, 'class NbDiffTool(GitDiff, WebTool):\n    pass', 'class NbDiffTool(GitDiff, WebTool):\n    port = Integer(0, help="port").tag(config=True)')
 T('C19', 'twin-docs-reordered-members', RST, '    Options to web tool commands (NbDiffTool, NbMergeTool).', '    Options to web tool commands (NbMergeTool, NbDiffTool).')
+
+# ------------------------------------------------------------------------------------------ C13
+M('C13', 'output-data-not-restored', NBD, "        tmp_data = b.pop('data')\n        b_conj = copy.deepcopy(b)\n        b.data = tmp_data\n", "        tmp_data = b.pop('data')\n        b_conj = copy.deepcopy(b)\n", 'R13.1')
+M('C13', 'apply-without-deepcopy', DEC, '    merged = copy.deepcopy(base)\n', '    merged = base\n', 'R13.1')
+M('C13', 'resolve-action-extends-decision-diff', DEC, '    elif a == "local_then_remote":\n        return decision.local_diff + decision.remote_diff',
+  '    elif a == "local_then_remote":\n        decision.local_diff.extend(decision.remote_diff)\n        return decision.local_diff', 'R13.1')
+M('C13', 'printer-sorts-diff-in-place', PP, '    for key, e in sorted([(e.key, e) for e in di], key=lambda x: x[0]):\n        pretty_print_diff_entry(a, e, path, config)',
+  '    di.sort(key=lambda e: e.key)\n    for e in di:\n        pretty_print_diff_entry(a, e, path, config)', 'R13.1')
+M('C13', 'patch-dict-deletes-from-obj', PATCH, '        elif op == DiffOp.REMOVE:\n            deleted_keys.add(key)', '        elif op == DiffOp.REMOVE:\n            deleted_keys.add(key)\n            del obj[key]', 'R13.1')
+M('C13', 'differ-normalises-source-in-place', GEN, '    for key in sorted(akeys & bkeys):\n        avalue = a[key]\n        bvalue = b[key]\n        # If types are the same',
+  '    for key in sorted(akeys & bkeys):\n        avalue = a[key]\n        bvalue = b[key]\n        if isinstance(bvalue, list) and bvalue and bvalue[-1] == "":\n            bvalue.pop()\n        # If types are the same', 'R13.1')
+M('C13', 'flatten-mutates-line-diff', DU, '                d = copy.deepcopy(p)\n                d.key += line_offset', '                d = p\n                d.key += line_offset', 'R13.1')
+M('C13', 'patch-list-shares-untouched-items', PATCH, '        newobj.extend(copy.deepcopy(value) for value in obj[take:index])', '        newobj.extend(obj[take:index])', 'R13.2')
+M('C13', 'apply-returns-base-when-no-decisions', DEC, '    merged = copy.deepcopy(base)\n    prev_path = None', '    if not decisions:\n        return base\n    merged = copy.deepcopy(base)\n    prev_path = None', 'R13.2')
+T('C13', 'twin-combine-ops-shares-fresh-existing', DU, '            d = copy.deepcopy(existing)\n', '            d = existing\n')
+T('C13', 'twin-sort-a-copy', PP, '    for key, e in sorted([(e.key, e) for e in di], key=lambda x: x[0]):\n        pretty_print_diff_entry(a, e, path, config)',
+  '    entries = list(di)\n    entries.sort(key=lambda e: e.key)\n    for e in entries:\n        pretty_print_diff_entry(a, e, path, config)')
+T('C13', 'twin-mutate-local-comprehension', GEN, '    akeys = set(a.keys())\n    bkeys = set(b.keys())\n\n    di = MappingDiffBuilder()\n\n    # Sorting keys in loops',
+  '    akeys = set(a.keys())\n    bkeys = set(b.keys())\n    names = [k for k in akeys]\n    names.append("")\n    names.sort()\n\n    di = MappingDiffBuilder()\n\n    # Sorting keys in loops')
+T('C13', 'twin-restore-by-subscript', NBD, "        tmp_data = a.pop('data')\n        a_conj = copy.deepcopy(a)  # Output without data\n        a.data = tmp_data          # Restore output",
+  "        tmp_data = a.pop('data')\n        a_conj = copy.deepcopy(a)  # Output without data\n        a['data'] = tmp_data          # Restore output")
